@@ -28,6 +28,17 @@ MARKS = [
     ("PrivKey",       r"private_key_from_cose_key\s*\("),
     ("Sign",          r"\.\s*sign\s*\("),
     ("PinAuth",       r"pin_auth\s*\.\s*is_some\s*\(\s*\)"),
+    # extensions/hmac_secret.rs: where the per-credential secrets come from and what is computed with them
+    ("Hmac",          r"\bhmac_sha256\s*\("),
+    ("Sha256",        r"\bsha256\s*\("),
+    ("CalcHmac",      r"\bcalculate_hmac_secret\s*\("),
+    ("SelectSalts",   r"\bselect_salts\s*\("),
+    ("CredWithUv",    r"\bcred_with_uv\b"),
+    ("CredWithoutUv", r"\bcred_without_uv\b"),
+    ("WithoutUvCfg",  r"\.\s*without_uv\s*\(\s*\)"),
+    ("SupportsNoUv",  r"\.\s*supports_no_uv\s*\(\s*\)"),
+    ("OnMcCfg",       r"\bon_make_credential_support\b"),
+    ("EvalByCred",    r"\beval_by_credential\b"),
     ("Err",           r"(?:Err\s*\(|ok_or\s*\(|map_err\s*\(\s*\|_\|\s*)\s*(?:Ctap2Error|U2FError)::(\w+)"),
 ]
 MASTER = re.compile("|".join("(?P<m%d>%s)" % (i, pat) for i, (_, pat) in enumerate(MARKS)))
@@ -72,12 +83,12 @@ def marks(body):
     return out
 
 
-def main(authenticator_rs, get_info_rs, make_credential_rs, get_assertion_rs, u2f_rs, dst):
+def main(authenticator_rs, get_info_rs, make_credential_rs, get_assertion_rs, u2f_rs, hmac_secret_rs, dst):
     def load(p):
         s = strip(open(p).read())
         k = s.find("#[cfg(test)]")
         return s if k < 0 else s[:k]
-    a, gi, mc, ga, u2f = (load(p) for p in (authenticator_rs, get_info_rs, make_credential_rs, get_assertion_rs, u2f_rs))
+    a, gi, mc, ga, u2f, hs = (load(p) for p in (authenticator_rs, get_info_rs, make_credential_rs, get_assertion_rs, u2f_rs, hmac_secret_rs))
     mi = re.search(r"impl<[^{]*>\s*U2fApi\s+for\s+Authenticator", u2f)
     if not mi:
         raise SystemExit("ceremony_skeleton translator: cannot find the U2fApi impl")
@@ -89,6 +100,11 @@ def main(authenticator_rs, get_info_rs, make_credential_rs, get_assertion_rs, u2
         ("GET_ASSERTION", body_of(ga, r"pub async fn get_assertion\s*\([^{]*\{", "Authenticator::get_assertion")),
         ("U2F_REGISTER", body_of(u2f_impl, r"async fn register\s*\([^{;]*\{", "U2fApi::register (impl)")),
         ("U2F_AUTHENTICATE", body_of(u2f_impl, r"async fn authenticate\s*\([^{;]*\{", "U2fApi::authenticate (impl)")),
+        ("MAKE_HMAC_SECRET", body_of(hs, r"fn make_hmac_secret\s*\([^{]*\{", "make_hmac_secret")),
+        ("MAKE_PRF", body_of(hs, r"fn make_prf\s*\([^{]*\{", "make_prf")),
+        ("GET_PRF", body_of(hs, r"fn get_prf\s*\([^{]*\{", "get_prf")),
+        ("CALCULATE_HMAC_SECRET", body_of(hs, r"fn calculate_hmac_secret\s*\([^{]*\{", "calculate_hmac_secret")),
+        ("SELECT_SALTS", body_of(hs, r"fn select_salts\s*\([^{]*\{", "select_salts")),
     ]
     lines = ["(* GENERATED by translators/ceremony_skeleton.py from passkey-authenticator/src - do not edit *)",
              "From Coq Require Import String List. Import ListNotations. Open Scope string_scope."]
@@ -107,4 +123,4 @@ def main(authenticator_rs, get_info_rs, make_credential_rs, get_assertion_rs, u2
 
 
 if __name__ == "__main__":
-    main(*sys.argv[1:7])
+    main(*sys.argv[1:8])
